@@ -45,6 +45,12 @@ THEOREMS = [
     "PorepyVerif.C26.step_mortar_stack",
     "PorepyVerif.C26.step_secondary_stack",
     "PorepyVerif.C26.step_primary_stack",
+    "PorepyVerif.C26.constructor_two_sides",
+    "PorepyVerif.C26.constructor_one_side",
+    "PorepyVerif.C26.ireach_inv",
+    "PorepyVerif.C26.mortar_projections_conserve",
+    "PorepyVerif.C26.constructor_reach_two",
+    "PorepyVerif.C26.constructor_reach_one",
 ]
 LEAN_MODULES = ["PorepyVerif.C26.Props"]
 AUDIT = "PorepyVerif/C26/Audit.lean"
